@@ -250,6 +250,15 @@ func (v *Verifier) verifyFunc(c *Contract) *FuncReport {
 	for _, b := range fn.Blocks {
 		rep.Instrs += len(b.Instrs)
 	}
+	if rm := renameMap(c.Vars, varNames(fn)); rm != nil {
+		x.rename = rm
+		var pairs []string
+		for o, n := range rm {
+			pairs = append(pairs, o+"->"+n)
+		}
+		sort.Strings(pairs)
+		v.noteAssumed("renamed variables of " + rep.Name + " identified by declaration position: " + strings.Join(pairs, ", "))
+	}
 	x.getSV("alloc", "Int")
 	// parameters
 	for _, p := range fn.Params {
